@@ -97,8 +97,6 @@ def over_sample(func):
 
         kwargs["over_sampling_being_performed"] = True
 
-        return grid.over_sampler.array_via_func_from(
-            func=func, obj=obj, *args, **kwargs
-        )
+        return grid.over_sampler.array_via_func_from(func, obj, *args, **kwargs)
 
     return wrapper
